@@ -232,5 +232,9 @@ def run_engine(tier, seed):
             "rule": "a case = one model-in line (topology description, build, apply, obs) answered by the real hwloc code and by the Lean "
                     "model; generated from 8 synthetic topologies decorated by random histories of edits (rename, info add/remove/"
                     "replace, local memory incl. uint64 wrap, misc insert, restrict, allow), pairs (A, edited dup of A) and hand-built "
-                    "diff lists (valid, failing at position N, chained on one attribute, unknown types, bad depth/index); distinct = "
+                    "diff lists (valid, failing at position N, chained on one attribute, unknown types, bad depth/index); every built list and "
+                    "generated hand lists (any printable strings incl. empty and escaping-heavy ones, boundary 64-bit values, depths, indexes) "
+                    "exported as XML by the real code: scanned attribute lists (and the exact nolibxml text) predicted by the exporter model, "
+                    "the load of that text and of 4 mutated documents each (missing/repeated/unknown attributes, other type numbers, bad "
+                    "numbers, renamed/reordered/repeated elements, empty values) predicted by the importer model; distinct = "
                     "distinct (request, C answer) pairs excluding topology descriptions"}
